@@ -102,3 +102,13 @@ FAMILIES += _logic.FAMILIES
 # group Arith (abs, min, max, mul, modulo): the models are the code repaired by fix commits a87256b / eab5616
 from . import c05_arith as _arith
 FAMILIES += _arith.FAMILIES
+
+# quick tier: the two largest exhaustive families (group Global, 1.1M cases each) are thinned to every 4th case so
+# that the check stays near one minute; the thorough tier enumerates them completely
+def _thin(fam, k=4):
+    g = fam.gen
+    fam.gen = lambda tier, rng, g=g: (g(tier, rng) if tier != "quick" else g(tier, rng)[::k])
+    fam.exhaustive_tiers = ("thorough",)
+for _f in FAMILIES:
+    if _f.name in ("exhaustive_domains_global", "single_prune_global"):
+        _thin(_f)
